@@ -383,6 +383,32 @@ Proof. destruct (rl_mutex_le1 evs 0) as (k & H & _); eauto with arith. Qed.
 Theorem reload_pinned_refuted : rl_run false 0 [Enter; Enter] = None.
 Proof. reflexivity. Qed.
 
+(* ---------- index lock vs. status lock ---------- *)
+
+(* listing (or status) against release, listing against listing, release against release (of two
+   units: the status locks differ, modelled by the index lock alone being shared is subsumed by
+   the same-unit case): every interleaving completes *)
+Theorem list_release_no_deadlock :
+  lk_explore 20 (lk_init list_ops release_ops) = true /\
+  lk_explore 20 (lk_init release_ops list_ops) = true /\
+  lk_explore 20 (lk_init list_ops list_ops) = true /\
+  lk_explore 20 (lk_init release_ops release_ops) = true.
+Proof. vm_compute. repeat split. Qed.
+
+(* reading a unit's status inside the index read section inverts the order Release uses: some
+   interleaving ends with both goroutines waiting for each other *)
+Theorem list_release_nested_refuted : lk_explore 20 (lk_init list_ops_nested release_ops) = false.
+Proof. vm_compute. reflexivity. Qed.
+
+(* the interleaving itself: release takes the status lock, list takes the index read lock, and
+   then neither the status read lock nor the index write lock can be had *)
+Lemma nested_deadlock_witness :
+  exists s1 s2, thread_step (lk_init list_ops_nested release_ops) true = Some s1 /\
+                thread_step s1 false = Some s2 /\
+                thread_step s2 false = None /\ thread_step s2 true = None /\
+                lk_p0 s2 <> [] /\ lk_p1 s2 <> [].
+Proof. eexists. eexists. repeat split; try (vm_compute; reflexivity); vm_compute; discriminate. Qed.
+
 (* ---------- the historical tree, refuted ---------- *)
 
 Definition ex_node : node :=
